@@ -17,7 +17,7 @@ Outside(p) == p[1] = "<outside>" \/ ~Under(p, S) \/ p = S
 ObsConfined(o) ==
   LET T == SetOfSeq(o.touched) IN
   /\ \A p \in T : ~Outside(p)
-  /\ ConfinedStrict(T, o.op = "delete")
+  /\ ConfinedStrict(T, o.op \in {"delete", "mut:delete"})
 Drift(o) == o.err # o.model_err \/ SetOfSeq(o.touched) # SetOfSeq(o.model_touched)
 
 Verdicts ==
